@@ -63,11 +63,16 @@ def mps_definitions(ctx) -> None:
     f, ps = _ret(ctx, MCB + "energy_variance_mps_impl")
     r0 = strip_typed(ps[0].retval)
     okv = False
-    if r0[0] == "attr" and r0[2] == "real":
-        h2 = "(hamiltonian @ hamiltonian).expect(state).cpu()"
-        h = "hamiltonian.expect(state).cpu()"
-        s = show(r0[1])
-        okv = s == f"({h2} - ({h} ** 2))"
+    inner = r0[1] if r0[0] == "attr" and r0[2] == "real" else r0
+    mons = monomials(inner)
+    # <H·H> − <H>·<H>, whatever the spelling (h**2, h*h, temporaries, .cpu() placement)
+    lin = [(m, c) for m, c in mons.items() if len(m) == 1]
+    quad = [(m, c) for m, c in mons.items() if len(m) == 2]
+    if len(mons) == 2 and len(lin) == 1 and len(quad) == 1:
+        (m1, c1), (m2, c2) = lin[0], quad[0]
+        s1, s2a, s2b = show(m1[0]), show(m2[0]), show(m2[1])
+        okv = abs(c1 - 1) < 1e-12 and abs(c2 + 1) < 1e-12 and "(hamiltonian @ hamiltonian).expect(state)" in s1 \
+            and s2a == s2b and "hamiltonian.expect(state)" in s2a and "@" not in s2a
     ctx.ob("OBSDEF", "mps energy variance", f.loc(), okv,
            "variance = Re(<H²> − <H>²)" if okv else f"variance returns {show(r0)[:100]}")
 
